@@ -332,17 +332,36 @@ def forever_point(ev):  # summarised: suspension point
     raise NotImplementedError
 
 
-def _hc_setup(vc, proto, state):
+# drain() failures the environment may produce: *every* OSError is a write error, not only ConnectionError subclasses
+# (ETIMEDOUT -> TimeoutError, EHOSTUNREACH -> plain OSError, EPIPE/ECONNRESET -> ConnectionError subclasses)
+WRITE_ERRORS = [("BrokenPipeError", (32, "Broken pipe")), ("ConnectionResetError", (104, "Connection reset by peer")), ("TimeoutError", (110, "Connection timed out")),
+                ("OSError", (113, "No route to host")), ("PermissionError", (1, "Operation not permitted"))]
+
+
+def _write_error(vc, label="write_error_class"):
+    import builtins
+    name, args = vc.case(label, WRITE_ERRORS)
+    return getattr(builtins, name), args
+
+
+def _hc_setup(vc, proto, state, inline_drain=False):
     _common_summaries(vc)
     client = mk_client(vc)
     conn = mk_server(vc, transport_protocol=proto, state=state, timestamp_start=2.0)
     stream = _stream(vc, close_fails=vc.case("writer_close_raises_oserror", [False, True]))
     task = vc.new("props.C09:TaskStub", cancel_requests=0, was_cancelled=False, exc=None)
-    io = vc.new("mitmproxy.proxy.server:ConnectionIO", handler=task, reader=stream, writer=stream)
     other = mk_server(vc, "other", address=("other.example", 80))
     io2 = vc.new("mitmproxy.proxy.server:ConnectionIO", handler=None, reader=None, writer=None)
-    h = vc.new("props.C09:HandlerStub", client=client, transports=vc.dict([(other, io2), (conn, io)]))
-    vc.summary(CH + ".drain_writers", lambda v, self_: v.awaitable("drain"))
+    if inline_drain:
+        # drain_writers runs from its real source inside handle_connection; the *other* connection's socket is the one that fails
+        stream = vc.new("props.C09:DrainStream", peername=("93.184.216.34", 443), sockname=("10.0.0.2", 50000), closed=0, close_fails=False, eof=0, eof_fails=False, written=b"")
+        ow = vc.new("props.C09:DrainStream", peername=None, sockname=None, closed=0, close_fails=False, eof=0, eof_fails=False, written=b"")
+        io2 = vc.new("mitmproxy.proxy.server:ConnectionIO", handler=vc.new("props.C09:TaskStub", cancel_requests=0, was_cancelled=False, exc=None), reader=ow, writer=ow)
+        vc.summary("props.C09:drain_point", lambda v, s: v.awaitable("drain_io", s))
+    else:
+        vc.summary(CH + ".drain_writers", lambda v, self_: v.awaitable("drain"))
+    io = vc.new("mitmproxy.proxy.server:ConnectionIO", handler=task, reader=stream, writer=stream)
+    h = vc.new("props.C09:HandlerStub", client=client, transports=vc.dict([(other, io2), (conn, io)]), _drain_lock=vc.new("props.C09:SemStub", held=0))
     vc.summary("asyncio.locks:Event", lambda v: v.new("props.C09:ForeverEvent"))
     vc.summary("props.C09:forever_point", lambda v, ev: v.awaitable("wait_forever"))
     return h, conn, stream, other
@@ -352,13 +371,14 @@ def _tr_keys(vc, h):
     return [k for k, _ in h.transports.items] if vc.mode == "sym" else list(h.transports.keys())
 
 
-def _handle_connection_body(vc, inductive):
+def _handle_connection_body(vc, inductive, inline_drain=False):
     from mitmproxy.connection import ConnectionState as S
     import asyncio
     proto = vc.case("proto", ["tcp", "udp"])
     st0 = vc.case("initial_state", [S.OPEN, S.CAN_READ])     # CAN_READ: we already half-closed our side
-    h, conn, stream, other = _hc_setup(vc, proto, st0)
-    reads, delivered, closed_events, log, cancelled_at = [], [], [], [], []
+    h, conn, stream, other = _hc_setup(vc, proto, st0, inline_drain)
+    reads, delivered, closed_events, log, cancelled_at, write_failed = [], [], [], [], [], []
+    werr = _write_error(vc) if inline_drain else None
 
     def on_yield(item):
         kind = item[1]
@@ -390,6 +410,9 @@ def _handle_connection_body(vc, inductive):
             return vc.throw(ConnectionResetError, "reset")
         if kind == "wait_forever":
             vc.assume(False)   # nobody sets this event: the wait can only be cancelled
+        if kind == "drain_io" and vc.branch(vc.fresh_bool("write_error")):
+            write_failed.append(item[2])
+            return vc.throw(werr[0], *werr[1])      # flushing a socket fails (any OSError): must not escape from the reader of another connection
         return None
 
     if inductive and vc.mode == "sym":
@@ -408,12 +431,12 @@ def _handle_connection_body(vc, inductive):
     vc.ensure("exit.other_transports_untouched", other in _tr_keys(vc, h) and len(_tr_keys(vc, h)) == 1)
     vc.ensure("exit.writer_closed_exactly_once", stream.closed == 1)
     vc.ensure("exit.layer_told_exactly_once", len(closed_events) == 1)
-    vc.ensure("exit.nothing_read_or_delivered_after_close_event", "ev:ConnectionClosed" in log and not [k for k in log[log.index("ev:ConnectionClosed") + 1:] if k in ("read", "drain", "ev:DataReceived", "ev:ConnectionClosed")])
+    vc.ensure("exit.nothing_read_or_delivered_after_close_event", "ev:ConnectionClosed" in log and not [k for k in log[log.index("ev:ConnectionClosed") + 1:] if k in ("read", "drain", "drain_io", "ev:DataReceived", "ev:ConnectionClosed")])
     vc.ensure("exit.every_chunk_delivered_once_in_order", len(delivered) == len(reads) and all(a is b for a, b in zip(delivered, reads)))
     vc.ensure("exit.not_readable", Not(flag_has(conn.state, S.CAN_READ)))
     if cancelled_at:
         vc.ensure("cancel.reraised", (not out.ok) and out.raised_type() is asyncio.CancelledError)
-        if cancelled_at[0] in ("read", "drain"):
+        if cancelled_at[0] in ("read", "drain", "drain_io", "sem_acquire"):
             vc.ensure("cancel.state_closed", vc.eq(conn.state, S.CLOSED))
     else:
         vc.ensure("no_cancel.returns_normally", out.ok)
@@ -427,6 +450,14 @@ def _handle_connection_body(vc, inductive):
 def s_handle_connection(vc):
     """Inductive over the read loop (invariant: not cancelled, writer open, state unchanged)."""
     _handle_connection_body(vc, True)
+
+
+@scenario("handle_connection.cleanup.write_errors", functions=[CH + ".handle_connection", CH + ".drain_writers"], max_unroll=1)
+def s_handle_connection_write_errors(vc):
+    """handle_connection with the real drain_writers inlined: flushing any socket (this connection's or another one's) may fail with any
+    OSError (BrokenPipe/ConnectionReset/Timeout/EHOSTUNREACH/...). Same exit obligations: the reader is not torn down by somebody
+    else's write error - it always tells the layer, closes its writer and releases its transport."""
+    _handle_connection_body(vc, False, inline_drain=True)
 
 
 @scenario("handle_connection.cleanup.unrolled", functions=[CH + ".handle_connection"], max_unroll=3)
@@ -466,6 +497,7 @@ def s_drain(vc):
         (server, vc.new("mitmproxy.proxy.server:ConnectionIO", handler=t2, reader=w2, writer=w2)),
     ]))
     failed, cancelled_at = [], []
+    werr = _write_error(vc)     # every OSError subclass drain() can raise, not only ConnectionError
 
     def on_yield(item):
         if vc.branch(vc.fresh_bool("cancelled")):
@@ -474,7 +506,7 @@ def s_drain(vc):
         if item[1] == "drain":
             if vc.branch(vc.fresh_bool("write_error")):
                 failed.append(item[2])
-                return vc.throw(BrokenPipeError, "broken pipe")
+                return vc.throw(werr[0], *werr[1])
         return None
 
     out = vc.call(CH + ".drain_writers", h, on_yield=on_yield)
@@ -482,6 +514,7 @@ def s_drain(vc):
     vc.ensure("only_cancellation_escapes", out.ok == (not cancelled_at) and (out.ok or out.raised_type() is asyncio.CancelledError))
     vc.ensure("write_error.cancels_exactly_that_handler", And(t1.cancel_requests == (1 if w1 in failed else 0), t2.cancel_requests == (1 if w2 in failed else 0)))
     if not cancelled_at:
+        vc.ensure("no_write_error_escapes", out.ok)
         vc.ensure("every_writer_drained", [x for x in out.trace if x[1] == "drain"] and [x[2] for x in out.trace if x[1] == "drain"] == [w1, w2])
 
 
@@ -822,10 +855,11 @@ class _T2Env:
         elif k == "server_reset":
             if arg in self.readers:
                 self.readers[arg].q.put_nowait(ConnectionResetError("reset by peer"))
-        elif k == "write_error":
+        elif k in ("write_error", "write_timeout", "write_unreachable"):
             for w in self.writers:
                 if w.key == arg:
-                    w.fail = True
+                    w.fail = {"write_error": BrokenPipeError(32, "Broken pipe"), "write_timeout": TimeoutError(110, "Connection timed out"),
+                              "write_unreachable": OSError(113, "No route to host")}[k]
         else:
             raise AssertionError(kind)
 
@@ -871,7 +905,7 @@ def _t2_classes():
         async def drain(self):
             await self.env.reach(f"drain:{self.key}", self.key)
             if self.fail:
-                raise BrokenPipeError("broken pipe")
+                raise self.fail
 
         def get_extra_info(self, k, d=None):
             return {"peername": (self.addr[0], self.addr[1]), "sockname": ("10.0.0.2", 50000)}.get(k, d)
@@ -1033,7 +1067,7 @@ def _t2_run(addrs, faults=(), connect_fail=(), refuse=False, script=("client_dat
             await settle(50)
         finally:
             asyncio.open_connection = orig
-        res["transports"] = [(("client" if c is client else [k for k, s in env.servers.items() if s is c][0]), io.writer is not None and not io.writer.closed, io.handler is not None and not io.handler.done()) for c, io in h.transports.items()]
+        res["transports"] = [(("client" if c is client else ([k for k, s in env.servers.items() if s is c] or ["upstream-without-hooks"])[0]), io.writer is not None and not io.writer.closed, io.handler is not None and not io.handler.done()) for c, io in h.transports.items()]
         res["states"] = {k: s.state for k, s in env.servers.items()}
 
     import logging
@@ -1101,7 +1135,7 @@ def bounded(tier, seed):
     b.rule = ("real ConnectionHandler (handle_client/open_connection/handle_connection/server_event/close_connection/drain_writers/on_timeout) under a real asyncio loop, fake "
               "stream readers/writers, asyncio.open_connection replaced, a scripted multiplexing layer opening 1-2 upstream connections (same or different address); canonical exchange "
               "open -> client data -> server data -> client EOF; at EVERY await position of the canonical run (hooks, connect, read, drain) one fault of {layer closes upstream i (cancel), client EOF, client reset, "
-              "inactivity timeout, upstream EOF/reset, write error on client/upstream} is injected (plus ordered pairs of faults at two positions, subsampled by the seed: 500 per configuration, thorough 30000), x connect refusal per upstream; "
+              "inactivity timeout, upstream EOF/reset, write error {EPIPE, ETIMEDOUT (TimeoutError), EHOSTUNREACH (plain OSError)} on client/upstream} is injected (plus ordered pairs of faults at two positions, subsampled by the seed: 500 per configuration, thorough 30000), x connect refusal per upstream; "
               "plus: real HttpLayer exchange with an addon blocking in each hook and the client leaving; refused client; 7 concurrent connections to one address with cancellation while waiting for the semaphore. "
               "checked: hook pairing per connection, no unclosed socket / running task / live transport after handle_client returns, <= 5 open per address, termination, refused => no Start. "
               "distinct = (upstreams, connect failures, faults); non-trivial = a fault fired")
@@ -1117,7 +1151,8 @@ def bounded(tier, seed):
         _t2_check(b, base, inp0)
         positions = list(dict.fromkeys(base["env"].trace))
         keys = [f"s{i + 1}" for i in range(len(addrs))]
-        kinds = ["client_eof", "client_reset", "timeout", "write_error:client"] + [f"{k}:{key}" for key in keys for k in ("cancel", "server_eof", "server_reset", "write_error")]
+        kinds = ["client_eof", "client_reset", "timeout", "write_error:client", "write_timeout:client", "write_unreachable:client"] + [
+            f"{k}:{key}" for key in keys for k in ("cancel", "server_eof", "server_reset", "write_error", "write_timeout", "write_unreachable")]
         singles = [(p, k) for p in positions for k in kinds]
         for p, k in singles:
             res = _t2_run(addrs, faults={p: k}, connect_fail=cf)
@@ -1137,7 +1172,7 @@ def bounded(tier, seed):
     if ("response", "client") not in base["env"].hooks or b"200 OK" not in base["env"].writers[0].data:
         b.fail("t2.http_family_completes_an_exchange", {"layer": "real HttpLayer"}, str(base["env"].hooks))
     for p in dict.fromkeys(base["env"].trace):
-        for k in ("client_eof", "client_reset", "timeout", "write_error:client", "server_eof:s1", "server_reset:s1", "write_error:s1"):
+        for k in ("client_eof", "client_reset", "timeout", "write_error:client", "write_timeout:client", "server_eof:s1", "server_reset:s1", "write_error:s1", "write_timeout:s1", "write_unreachable:s1"):
             res = _t2_run((), faults={p: k}, http=True)
             b.case(("http", p, k), nontrivial=bool(res["env"].fired))
             _t2_check(b, res, {"layer": "real HttpLayer, regular mode, GET http://example.com/", "faults": {p: k}}, expect_started=None)
